@@ -8,48 +8,46 @@ from __future__ import annotations
 
 import z3
 
+from pyvc import ops
 from pyvc.contract import Case, Contract, Registry, Shape
-from pyvc.types import BOOL, DATETIME, INT, REAL, STR, Atom, MapT, ObjT, Opt, Record, SeqT, SetT
-from pyvc.values import fresh_name
+from pyvc.types import BOOL, DATETIME, INT, REAL, STR, Atom, BagT, MapT, ObjT, Opt, Record, SeqT, SetT
+from pyvc.values import NONE, OK, RAISE, ExcVal, Val, fresh_name
 
-from .common import CALL, ID, RUNNER, TASK, Types, spec_new_owner, spec_step_error
+from .common import CALL, ID, RUNNER, SPEC, TASK, Types, runner_id_ok, spec_new_owner, spec_step_error
 
 BO = "pynenc.orchestrator.base_orchestrator"
+KEYS = Atom("KeyArgs")          # the projection of a call's serialized arguments under a concurrency mode
 
 
-def add_world(T: Types, reg: Registry, orch_cls=None):
-    """Register App / Orchestrator / Broker / StateBackend / Trigger abstract shapes."""
-    if "Orchestrator" in reg.shapes:
+def view_types(T: Types):
+    """Invocation / call / task objects as records of the attributes the glue reads."""
+    if hasattr(T, "InvocationV"):
         return
-    rec_t = MapT(ID, T.Record)
-    reg.add_shape(Shape("AppConf", fields={}))
-    reg.add_shape(Shape("OrchConf", fields={"blocking_control": BOOL}))
-    reg.shapes["App"] = Shape("App", fields={
-        "orchestrator": ObjT("Orchestrator"), "broker": ObjT("Broker"), "state_backend": ObjT("StateBackend"),
-        "trigger": ObjT("Trigger"), "conf": ObjT("AppConf"),
-    })
-    reg.add_shape(Shape("Orchestrator", fields={
-        "rec": rec_t,                       # id -> (status, owner, timestamp); dom = registered ids
-        "app": ObjT("App"),
-        "conf": ObjT("OrchConf"),
-    }, cls=orch_cls or (BO, "BaseOrchestrator"), abstract_methods={
-        "get_invocation_status": "Orchestrator.get_invocation_status",
-    }))
-    reg.add_shape(Shape("Broker", fields={"app": ObjT("App")}))
-    reg.add_shape(Shape("StateBackend", fields={"app": ObjT("App")}))
-    reg.add_shape(Shape("Trigger", fields={"app": ObjT("App")}))
-    OREC = Opt(T.Record)
+    T.TaskConf = Record("TaskConf", [("running_concurrency", T.CCType), ("registration_concurrency", T.CCType),
+                                     ("reroute_on_concurrency_control", BOOL), ("on_diff_non_key_args_raise", BOOL),
+                                     ("max_retries", INT)])
+    T.TaskRec = Record("TaskView", [("task_id", TASK), ("conf", T.TaskConf)])
+    T.CallRec = Record("CallView", [("task", T.TaskRec), ("call_id", CALL)])
+    T.Invocation = Record("InvocationView", [("invocation_id", ID), ("call", T.CallRec), ("task", T.TaskRec)])
+    T.InvocationV = T.Invocation
+    T.RunnerCtx = Record("RunnerContext", [("runner_id", STR)])
+    T.inv_of = z3.Function("inv_of", ID.sort(), T.Invocation.sort())          # immutable id -> invocation view
+    T.key_of = z3.Function("key_of", ID.sort(), T.CCType.sort(), KEYS.sort())  # key projection per mode
+    T.hist_t = MapT(ID, SeqT(T.Record))
 
-    def cell(c):
-        return z3.Select(c.old("rec"), c.arg("invocation_id"))
-    reg.add(Contract(
-        key="Orchestrator.get_invocation_status", shape="Orchestrator", params={"invocation_id": ID}, result=T.Status, frame=[],
-        cases=[
-            Case("unknown-id", when=lambda c: OREC.is_none(cell(c)), raises="KeyError", exact=True),
-            Case("known", when=lambda c: OREC.is_some(cell(c)), ensures=[
-                ("is-stored-status", lambda c: c.result == T.Record.get(OREC.val(cell(c)), "status"))]),
-        ], assumed=True, check_invariants=False, effect_events=False,
-        note="abstract view of get_invocation_status: proved for MemOrchestrator.get_invocation_status_record (C01), bounded for SQLite"))
+
+def inv_axioms(T: Types, i):
+    v = T.inv_of(i)
+    return z3.And(T.Invocation.get(v, "invocation_id") == i,
+                  T.Invocation.get(v, "task") == T.CallRec.get(T.Invocation.get(v, "call"), "task"))
+
+
+def task_of(T: Types, i):
+    return T.TaskRec.get(T.Invocation.get(T.inv_of(i), "task"), "task_id")
+
+
+def conf_of(T: Types, inv_term, field):
+    return T.TaskConf.get(T.TaskRec.get(T.Invocation.get(inv_term, "task"), "conf"), field)
 
 
 def status_of(T: Types, rec_term, i):
@@ -57,5 +55,272 @@ def status_of(T: Types, rec_term, i):
     return T.Record.get(rec_t.opt.val(z3.Select(rec_term, i)), "status")
 
 
+def owner_of(T: Types, rec_term, i):
+    rec_t = MapT(ID, T.Record)
+    return T.Record.get(rec_t.opt.val(z3.Select(rec_term, i)), "runner_id")
+
+
 def known(T: Types, rec_term, i):
     return MapT(ID, T.Record).opt.is_some(z3.Select(rec_term, i))
+
+
+def add_world(T: Types, reg: Registry, orch_cls=None):
+    """Register App / Orchestrator / Broker / StateBackend / Trigger / BlockingControl abstract shapes and contracts."""
+    if "Orchestrator" in reg.shapes:
+        return
+    view_types(T)
+    rec_t = MapT(ID, T.Record)
+    OREC, OSTR, OID = Opt(T.Record), Opt(RUNNER), Opt(ID)
+    SID = SetT(ID)
+    QT = SeqT(ID)
+    reg.records["pynenc.runner.runner_context:RunnerContext"] = T.RunnerCtx
+    reg.add_shape(Shape("AppConf", fields={"max_pending_seconds": REAL, "runner_considered_dead_after_minutes": REAL}))
+    reg.add_shape(Shape("OrchConf", fields={"blocking_control": BOOL}))
+    reg.shapes["App"] = Shape("App", fields={
+        "orchestrator": ObjT("Orchestrator"), "broker": ObjT("Broker"), "state_backend": ObjT("StateBackend"),
+        "trigger": ObjT("Trigger"), "conf": ObjT("AppConf"), "app_id": STR,
+    })
+    reg.add_shape(Shape("Orchestrator", fields={
+        "rec": rec_t,                       # id -> (status, owner, timestamp); dom = registered ids
+        "retries": MapT(ID, INT),
+        "indexed": SID,                     # ids whose argument pairs are in the concurrency index
+        "purge_set": SID,                   # ids scheduled for auto purge
+        "blocking_control": ObjT("BlockingControl"),
+        "app": ObjT("App"),
+        "conf": ObjT("OrchConf"),
+    }, cls=orch_cls or (BO, "BaseOrchestrator"), abstract_methods={
+        "_atomic_status_transition": "Orchestrator._atomic_status_transition",
+        "get_invocation_status_record": "Orchestrator.get_invocation_status_record",
+        "_register_new_invocations": "Orchestrator._register_new_invocations",
+        "index_arguments_for_concurrency_control": "Orchestrator.index_arguments_for_concurrency_control",
+        "set_up_invocation_auto_purge": "Orchestrator.set_up_invocation_auto_purge",
+        "increment_invocation_retries": "Orchestrator.increment_invocation_retries",
+        "get_invocation_retries": "Orchestrator.get_invocation_retries",
+        "get_existing_invocations": "Orchestrator.get_existing_invocations",
+    }))
+    reg.add_shape(Shape("BlockingControl", fields={"waited": SID, "edges_to": MapT(ID, SID)}, abstract_methods={
+        "release_waiters": "BlockingControl.release_waiters",
+        "waiting_for_results": "BlockingControl.waiting_for_results",
+        "get_blocking_invocations": "BlockingControl.get_blocking_invocations",
+    }))
+    reg.add_shape(Shape("Broker", fields={"queue": BagT(ID), "app": ObjT("App")}, abstract_methods={
+        "route_invocation": "Broker.route_invocation", "route_invocations": "Broker.route_invocations",
+        "retrieve_invocation": "Broker.retrieve_invocation", "count_invocations": "Broker.count_invocations",
+    }))
+    reg.add_shape(Shape("StateBackend", fields={
+        "stored": SID, "res": SID, "exc": SID, "hist": T.hist_t, "app": ObjT("App"),
+    }, abstract_methods={
+        "add_history": "StateBackend.add_history", "add_histories": "StateBackend.add_histories",
+        "set_result": "StateBackend.set_result", "set_exception": "StateBackend.set_exception",
+        "get_invocation": "StateBackend.get_invocation", "upsert_invocations": "StateBackend.upsert_invocations",
+    }))
+    reg.add_shape(Shape("Trigger", fields={"app": ObjT("App")}, abstract_methods={
+        "report_tasks_status": "Trigger.report", "report_invocation_result": "Trigger.report2",
+        "report_invocation_failure": "Trigger.report2",
+    }))
+
+    A = dict(assumed=True, check_invariants=False)
+
+    # ------------------------------------------------------------------ orchestrator storage (same statements as C01 leaf contracts)
+    def cell(c):
+        return z3.Select(c.old("rec"), c.arg("invocation_id"))
+
+    def err(c):
+        return spec_step_error(T, cell(c), c.arg("status"), c.arg("runner_id"))
+    reg.add(Contract(
+        key="Orchestrator._atomic_status_transition", shape="Orchestrator",
+        params={"invocation_id": ID, "status": T.Status, "runner_id": OSTR}, result=T.Record, frame=["rec"],
+        defaults={"runner_id": lambda eng, st: NONE},
+        requires=[("runner-id-none-or-nonempty", lambda c: runner_id_ok(c.arg("runner_id")))],
+        cases=[
+            Case("unknown-id", when=lambda c: OREC.is_none(cell(c)), raises="KeyError", exact=True,
+                 ensures=[("unchanged", lambda c: c.f("rec") == c.old("rec"))]),
+            Case("refused", when=lambda c: z3.And(OREC.is_some(cell(c)), err(c)), raises="InvocationStatusError",
+                 ensures=[("unchanged", lambda c: c.f("rec") == c.old("rec"))]),
+            Case("accepted", when=lambda c: z3.And(OREC.is_some(cell(c)), z3.Not(err(c))), ensures=[
+                ("only-this-record", lambda c: c.f("rec") == z3.Store(c.old("rec"), c.arg("invocation_id"), rec_t.opt.some(c.result))),
+                ("status", lambda c: T.Record.get(c.result, "status") == c.arg("status")),
+                ("owner", lambda c: T.Record.get(c.result, "runner_id") == spec_new_owner(T, cell(c), c.arg("status"), c.arg("runner_id"))),
+                ("owner-ok", lambda c: runner_id_ok(T.Record.get(c.result, "runner_id"))),
+            ]),
+        ], note="C01 contract of _atomic_status_transition (proved for Mem, glue+bounded for SQLite)", **A))
+    reg.add(Contract(
+        key="Orchestrator.get_invocation_status_record", shape="Orchestrator", params={"invocation_id": ID}, result=T.Record, frame=[],
+        cases=[
+            Case("unknown-id", when=lambda c: OREC.is_none(cell(c)), raises="KeyError", exact=True),
+            Case("known", when=lambda c: OREC.is_some(cell(c)), ensures=[("stored", lambda c: c.result == OREC.val(cell(c)))]),
+        ], effect_events=False, **A))
+    invs_t = SeqT(T.Invocation)
+    reg.add(Contract(
+        key="Orchestrator._register_new_invocations", shape="Orchestrator",
+        params={"invocations": invs_t, "runner_id": OSTR}, result=T.Record, frame=["rec", "retries"],
+        defaults={"runner_id": lambda eng, st: NONE},
+        cases=[Case("registered", ensures=[
+            ("REGISTERED", lambda c: T.Record.get(c.result, "status") == T.S("REGISTERED")),
+            ("exactly-these", lambda c: _registered(T, c)),
+        ])], **A))
+    reg.add(Contract(
+        key="Orchestrator.index_arguments_for_concurrency_control", shape="Orchestrator", params={"invocation": T.Invocation},
+        frame=["indexed"],
+        cases=[Case("indexed", ensures=[("adds-the-id", lambda c: c.f("indexed") == z3.Store(
+            c.old("indexed"), T.Invocation.get(c.arg("invocation"), "invocation_id"), True))])], **A))
+    reg.add(Contract(
+        key="Orchestrator.set_up_invocation_auto_purge", shape="Orchestrator", params={"invocation_id": ID}, frame=["purge_set"],
+        cases=[Case("scheduled", ensures=[("adds", lambda c: c.f("purge_set") == z3.Store(c.old("purge_set"), c.arg("invocation_id"), True))])], **A))
+    ret_t = MapT(ID, INT)
+    reg.add(Contract(
+        key="Orchestrator.increment_invocation_retries", shape="Orchestrator", params={"invocation_id": ID}, frame=["retries"],
+        cases=[Case("incremented", ensures=[("plus-one", lambda c: c.f("retries") == z3.Store(
+            c.old("retries"), c.arg("invocation_id"),
+            ret_t.opt.some(z3.If(ret_t.opt.is_some(z3.Select(c.old("retries"), c.arg("invocation_id"))),
+                                 ret_t.opt.val(z3.Select(c.old("retries"), c.arg("invocation_id"))), 0) + 1)))])], **A))
+    reg.add(Contract(
+        key="Orchestrator.get_invocation_retries", shape="Orchestrator", params={"invocation_id": ID}, result=INT, frame=[],
+        cases=[Case("count", ensures=[("stored-or-zero", lambda c: c.result == z3.If(
+            ret_t.opt.is_some(z3.Select(c.old("retries"), c.arg("invocation_id"))),
+            ret_t.opt.val(z3.Select(c.old("retries"), c.arg("invocation_id"))), 0))])], effect_events=False, **A))
+
+    # existing invocations: same task, status in the list, and (no key filter, or indexed with an equal key)
+    OKEYS = Opt(KEYS)
+    ST_SEQ = SeqT(T.Status)
+
+    def existing(c):
+        j = z3.Const(fresh_name("j"), ID.sort())
+        rec = c.old("rec")
+        task_ok = task_of(T, j) == T.TaskRec.get(c.arg("task"), "task_id")
+        st_ok = z3.Contains(c.arg("statuses"), z3.Unit(status_of(T, rec, j)))
+        keyf = c.arg("key_serialized_arguments")
+        key_ok = z3.Or(OKEYS.is_none(keyf), z3.And(z3.Select(c.old("indexed"), j), T.key_match(j, OKEYS.val(keyf))))
+        return z3.ForAll([j], z3.Select(c.out_set_call, j) == z3.And(known(T, rec, j), task_ok, st_ok, key_ok))
+    T.key_match = z3.Function("key_match", ID.sort(), KEYS.sort(), z3.BoolSort())   # all key pairs of the filter are indexed for id
+    reg.add(Contract(
+        key="Orchestrator.get_existing_invocations", shape="Orchestrator",
+        params={"task": T.TaskRec, "key_serialized_arguments": OKEYS, "statuses": ST_SEQ}, generator=ID, frame=[],
+        defaults={"key_serialized_arguments": lambda eng, st: NONE},
+        cases=[Case("matches", ensures=[("exactly-the-matching-ids", existing)])], effect_events=False, **A))
+
+    # ------------------------------------------------------------------ blocking control
+    reg.add(Contract(
+        key="BlockingControl.release_waiters", shape="BlockingControl", params={"waited_invocation_id": ID}, frame=["waited", "edges_to"],
+        cases=[Case("released", ensures=[
+            ("nothing-waits-on-it", lambda c: c.f("waited") == z3.Store(c.old("waited"), c.arg("waited_invocation_id"), False)),
+            ("edges-into-it-removed", lambda c: c.f("edges_to") == z3.Store(c.old("edges_to"), c.arg("waited_invocation_id"),
+                                                                         MapT(ID, SID).opt.none())),
+        ])], note="C09 contract of release_waiters (proved for MemBlockingControl)", **A))
+    reg.add(Contract(
+        key="BlockingControl.waiting_for_results", shape="BlockingControl",
+        params={"caller_invocation_id": ID, "result_invocation_ids": SID}, frame=["waited", "edges_to"],
+        cases=[Case("edges", ensures=[("awaited-become-waited", lambda c: c.f("waited") == ops.set_union(c.old("waited"), c.arg("result_invocation_ids")))])],
+        **A))
+    reg.add(Contract(
+        key="BlockingControl.get_blocking_invocations", shape="BlockingControl", params={"max_num_invocations": INT}, generator=ID, frame=[],
+        cases=[Case("ready", ensures=[
+            ("subset-of-waited", lambda c: ops.set_subset(c.out_set_call, c.old("waited"), ID.sort())),
+            ("at-most-n", lambda c: z3.And(c.out_count_call <= z3.If(c.arg("max_num_invocations") > 0, c.arg("max_num_invocations"), 0),
+                                            c.out_count_call >= 0)),
+        ])], effect_events=False, **A))
+
+    # ------------------------------------------------------------------ broker: multiset abstraction of the C08 sequence contracts
+    # (order is C08's business; the glue only needs "is a message for this id deliverable")
+    def bag_all_zero(b):
+        i = z3.Const(fresh_name("bi"), ID.sort())
+        return z3.ForAll([i], z3.Select(b, i) == 0)
+    reg.add(Contract(key="Broker.route_invocation", shape="Broker", params={"invocation_id": ID}, frame=["queue"],
+                     cases=[Case("append", ensures=[("one-more-message-for-the-id", lambda c: c.f("queue") == z3.Store(
+                         c.old("queue"), c.arg("invocation_id"), z3.Select(c.old("queue"), c.arg("invocation_id")) + 1))])], **A))
+
+    def route_many(c):
+        i = z3.Const(fresh_name("ri"), ID.sort())
+        k, kk = z3.Int(fresh_name("rk")), z3.Int(fresh_name("rkk"))
+        ids = c.arg("invocation_ids")
+        n = z3.Length(ids)
+        return z3.And(
+            z3.ForAll([i], z3.Select(c.f("queue"), i) >= z3.Select(c.old("queue"), i)),
+            z3.ForAll([k], z3.Implies(z3.And(k >= 0, k < n), z3.Select(c.f("queue"), ids[k]) >= z3.Select(c.old("queue"), ids[k]) + 1)),
+            z3.ForAll([i], z3.Implies(z3.Not(z3.Exists([kk], z3.And(kk >= 0, kk < n, ids[kk] == i))),
+                                      z3.Select(c.f("queue"), i) == z3.Select(c.old("queue"), i))))
+    reg.add(Contract(key="Broker.route_invocations", shape="Broker", params={"invocation_ids": QT}, frame=["queue"],
+                     cases=[Case("append-all", ensures=[("at-least-one-more-message-per-listed-id-others-unchanged", route_many)])], **A))
+    reg.add(Contract(key="Broker.retrieve_invocation", shape="Broker", params={}, result=OID, frame=["queue"], cases=[
+        Case("empty", when=lambda c: bag_all_zero(c.old("queue")), ensures=[
+            ("none", lambda c: OID.is_none(c.result)), ("same", lambda c: c.f("queue") == c.old("queue"))]),
+        Case("head", when=lambda c: z3.Not(bag_all_zero(c.old("queue"))), ensures=[
+            ("a-queued-id", lambda c: z3.And(OID.is_some(c.result), z3.Select(c.old("queue"), OID.val(c.result)) > 0)),
+            ("one-message-less", lambda c: c.f("queue") == z3.Store(c.old("queue"), OID.val(c.result), z3.Select(c.old("queue"), OID.val(c.result)) - 1))]),
+    ], **A))
+    reg.add(Contract(key="Broker.count_invocations", shape="Broker", params={}, result=INT, frame=[], effect_events=False,
+                     cases=[Case("len", ensures=[("nonneg", lambda c: c.result >= 0)])], **A))
+
+    # ------------------------------------------------------------------ state backend
+    hist_t = T.hist_t
+
+    def hist_get(h, i):
+        cellh = z3.Select(h, i)
+        return z3.If(hist_t.opt.is_some(cellh), hist_t.opt.val(cellh), SeqT(T.Record).empty())
+    T.hist_get = hist_get
+    reg.add(Contract(
+        key="StateBackend.add_history", shape="StateBackend",
+        params={"invocation_id": ID, "status_record": T.Record, "runner_context": T.RunnerCtx}, frame=["hist"],
+        cases=[Case("appended", ensures=[("one-entry-appended-for-this-id", lambda c: c.f("hist") == z3.Store(
+            c.old("hist"), c.arg("invocation_id"),
+            hist_t.opt.some(z3.Concat(hist_get(c.old("hist"), c.arg("invocation_id")), z3.Unit(c.arg("status_record"))))))])], **A))
+    reg.add(Contract(
+        key="StateBackend.add_histories", shape="StateBackend",
+        params={"invocations": invs_t, "status_record": T.Record, "runner_context": T.RunnerCtx}, frame=["hist"],
+        cases=[Case("appended", ensures=[("one-entry-per-invocation", lambda c: _hist_many(T, c, hist_get))])], **A))
+    reg.add(Contract(key="StateBackend.set_result", shape="StateBackend", params={"invocation_id": ID, "result": Atom("Payload")},
+                     frame=["res"], cases=[Case("stored", ensures=[("res", lambda c: c.f("res") == z3.Store(c.old("res"), c.arg("invocation_id"), True))])], **A))
+    reg.add(Contract(key="StateBackend.set_exception", shape="StateBackend", params={"invocation_id": ID, "exception": Atom("Payload")},
+                     frame=["exc"], cases=[Case("stored", ensures=[("exc", lambda c: c.f("exc") == z3.Store(c.old("exc"), c.arg("invocation_id"), True))])], **A))
+    reg.add(Contract(
+        key="StateBackend.get_invocation", shape="StateBackend", params={"invocation_id": ID}, result=T.Invocation, frame=[],
+        cases=[
+            Case("missing", when=lambda c: z3.Not(z3.Select(c.old("stored"), c.arg("invocation_id"))), raises="InvocationNotFoundError", exact=True),
+            Case("stored", when=lambda c: z3.Select(c.old("stored"), c.arg("invocation_id")), ensures=[
+                ("the-invocation-of-that-id", lambda c: z3.And(c.result == T.inv_of(c.arg("invocation_id")), inv_axioms(T, c.arg("invocation_id"))))]),
+        ], effect_events=False, **A))
+    reg.add(Contract(
+        key="StateBackend.upsert_invocations", shape="StateBackend", params={"invocations": invs_t}, frame=["stored"],
+        cases=[Case("stored", ensures=[("all-stored", lambda c: _stored_many(T, c))])], **A))
+    # ------------------------------------------------------------------ trigger: reports only write the trigger store
+    reg.add(Contract(key="Trigger.report", shape="Trigger", params={"invocation_ids": Atom("Any1"), "status": T.Status}, frame=[],
+                     cases=[Case("reported")], effect_events=False, handler=lambda eng, st, recv, args, kwargs: [(OK, st, NONE)], **A))
+    reg.add(Contract(key="Trigger.report2", shape="Trigger", params={}, frame=[], cases=[Case("reported")], effect_events=False,
+                     handler=lambda eng, st, recv, args, kwargs: [(OK, st, NONE)], **A))
+
+
+def _registered(T, c):
+    k = z3.Int(fresh_name("k"))
+    kk = z3.Int(fresh_name("kk"))
+    i = z3.Const(fresh_name("i"), ID.sort())
+    rec_t = MapT(ID, T.Record)
+    n = z3.Length(c.arg("invocations"))
+    idk = lambda q: T.Invocation.get(c.arg("invocations")[q], "invocation_id")
+    return z3.And(
+        z3.ForAll([k], z3.Implies(z3.And(k >= 0, k < n), z3.Select(c.f("rec"), idk(k)) == z3.If(
+            rec_t.opt.is_some(z3.Select(c.old("rec"), idk(k))), z3.Select(c.old("rec"), idk(k)), rec_t.opt.some(c.result)))),
+        z3.ForAll([i], z3.Implies(z3.Not(z3.Exists([kk], z3.And(kk >= 0, kk < n, idk(kk) == i))),
+                                  z3.Select(c.f("rec"), i) == z3.Select(c.old("rec"), i))))
+
+
+def _hist_many(T, c, hist_get):
+    hist_t = T.hist_t
+    k = z3.Int(fresh_name("k"))
+    kk = z3.Int(fresh_name("kk"))
+    i = z3.Const(fresh_name("i"), ID.sort())
+    n = z3.Length(c.arg("invocations"))
+    idk = lambda q: T.Invocation.get(c.arg("invocations")[q], "invocation_id")
+    return z3.And(
+        z3.ForAll([k], z3.Implies(z3.And(k >= 0, k < n), z3.Select(c.f("hist"), idk(k)) == hist_t.opt.some(
+            z3.Concat(hist_get(c.old("hist"), idk(k)), z3.Unit(c.arg("status_record")))))),
+        z3.ForAll([i], z3.Implies(z3.Not(z3.Exists([kk], z3.And(kk >= 0, kk < n, idk(kk) == i))),
+                                  z3.Select(c.f("hist"), i) == z3.Select(c.old("hist"), i))))
+
+
+def _stored_many(T, c):
+    i = z3.Const(fresh_name("i"), ID.sort())
+    kk = z3.Int(fresh_name("kk"))
+    n = z3.Length(c.arg("invocations"))
+    idk = lambda q: T.Invocation.get(c.arg("invocations")[q], "invocation_id")
+    return z3.ForAll([i], z3.Select(c.f("stored"), i) == z3.Or(z3.Select(c.old("stored"), i),
+                                                                z3.Exists([kk], z3.And(kk >= 0, kk < n, idk(kk) == i))))
